@@ -191,7 +191,7 @@ def run_tlc(family, module, cfg, timeout=900, workers=None, env_extra=None, extr
                 if f.endswith(".tla"):
                     shutil.copy(os.path.join(common, f), scratch)
         cmd = ["timeout", str(timeout), "java", "-XX:+UseParallelGC"]
-        cmd += ["-Xss64m"]
+        cmd += ["-Xss64m", "-Djava.io.tmpdir=" + scratch]      # (TLC and SANY leave directories in the JVM's tmpdir)
         if heap:
             cmd += ["-Xmx" + heap]
         cmd += ["-cp", "/opt/veriftools/tla/tla2tools.jar:/opt/veriftools/tla/CommunityModules-deps.jar", "tlc2.TLC"]
@@ -256,7 +256,9 @@ def run_apalache(family, module, cinit, init, inv, length, timeout=600):
         cmd = ["timeout", str(timeout), "apalache-mc", "check", "--cinit=" + cinit, "--init=" + init, "--inv=" + inv,
                "--length=" + str(length), "--out-dir=" + os.path.join(scratch, "out"), module + ".tla"]
         t0 = time.time()
-        p = subprocess.run(cmd, cwd=scratch, stdout=subprocess.PIPE, stderr=subprocess.STDOUT, text=True)
+        env = dict(os.environ)
+        env["JAVA_TOOL_OPTIONS"] = (env.get("JAVA_TOOL_OPTIONS", "") + " -Djava.io.tmpdir=" + scratch).strip()
+        p = subprocess.run(cmd, cwd=scratch, env=env, stdout=subprocess.PIPE, stderr=subprocess.STDOUT, text=True)
         res.wall = time.time() - t0
         res.rc, res.out = p.returncode, p.stdout
         res.ok = p.returncode == 0 and "EXITCODE: OK" in p.stdout
